@@ -82,6 +82,7 @@ class FCheck(SCheck):
             case = self.gen_case(r, i, tier)
             if case is None:
                 continue
+            gen.canon_case(case)
             plan = {"seed": r.randrange(1 << 48), "sched": gen.sched_plan(r)}
             yield {"case": case, "plan": plan, "case_id": i, "per_case": self.PER_CASE[tier], "pairs": self.PAIRS[tier],
                    "pick_seed": r.randrange(1 << 48)}
